@@ -10,14 +10,16 @@ the generated theorem C05_<platform> lifts them to  classify = expected class  o
 tie: patterns by CPython's own regex parser (gen/regex.py); regex-conformance of the engine with
 CPython re; correspondence of Prompt.classify with the real _determine_current_priv (sync and asyncio
 drivers), of detection with the real channel.get_prompt, and of the lru_cache model with the real
-driver over query / register-session / update histories."""
+driver over query / register-session / update histories, including in-place edits of existing level
+objects (harness/c05_hist.py); detection after commandeer (oracle only)."""
 import concurrent.futures as cf
 import json
 import os
 import re
+import sys
 import time
 
-from . import common, regexconf
+from . import c05_hist, common, regexconf
 from .common import coq_bytes, coq_list
 
 LEVEL = "proof"
@@ -548,7 +550,14 @@ def correspondence(rep, rx, plats, rng, thorough, info_all):
             rep.broken.append("correspondence prompt-cache %s: %d disagreements" % (p, len(bad)))
             rep.notes.append("cache history disagreement: %r" % (meta[bad[0]],))
     info_all["cache_histories"] = hist_stats
-    rep.coverage["correspondence"] = {"suites": ["regex-conformance", "prompt-classify", "get_prompt-detect", "prompt-cache"]}
+
+    # (d) histories with IN-PLACE edits of existing level objects + update_privilege_levels (all platforms), and
+    # (e) prompt detection after commandeer (oracle only).  Last: they edit level objects of their own drivers.
+    me = sys.modules[__name__]
+    if c05_hist.edit_histories(me, rep, rx, plats, rng, thorough, info_all, coq_bytes, coq_list, common, _coqc):
+        c05_hist.commandeer_suite(me, rep, rx, plats, rng, thorough, info_all)
+    rep.coverage["correspondence"] = {"suites": ["regex-conformance", "prompt-classify", "get_prompt-detect", "prompt-cache",
+                                                 "prompt-cache-in-place-edits", "get_prompt-after-commandeer"]}
     rep.sample({"platform": "cisco_nxos", "example": "switch(maint-mode)(config-subif)# -> ['configuration']"})
 
 
@@ -592,6 +601,16 @@ def replay(path):
         found = re.search(drv.comms_prompt_pattern.encode(), w, re.M | re.I)
         print("stream %r: combined pattern %s" % (w, "finds a prompt" if found else "finds NO prompt"))
         return 0 if found else 1
+    if kind == "edit-history":
+        return c05_hist.replay_history(sys.modules[__name__], r)
+    if kind == "cache":     # the register / retire histories of (c), in the op format of the edit histories
+        conv = {"R": ["T", [["register", "s1"]]], "S": ["T", [["retire", "s1"], ["register", "s2"]]]}
+        ops = [["Q", o[1]] if o[0] == "Q" else conv[o[0]] for o in r["ops"]]
+        return c05_hist.replay_history(sys.modules[__name__], {"platform": r["platform"], "stack": r.get("stack", "sync"), "ops": ops})
+    if kind == "edit-isolation":
+        return c05_hist.replay_isolation(sys.modules[__name__], r)
+    if kind == "commandeer":
+        return c05_hist.replay_commandeer(sys.modules[__name__], r)
     print("nothing to replay (no concrete input): %s" % r.get("what"))
     return 1
 
@@ -605,12 +624,23 @@ MANIFEST = {
             "(atoms validated), whose soundness is proved once: C05_decision_sound, C05_fact_sound, C05_obligations_sound (props/C05.v, Closed under the global context). "
             "C05_cache_transparent: for EVERY history of classification queries and table updates the lru_cache in front of the classifier is invisible, given that "
             "update_privilege_levels clears it and register_configuration_session calls it (facts read from the source by ast on every run); refuted without the clear. "
+            "The same theorem covers IN-PLACE edits of existing level objects (Update t with the edited table): histories on the real drivers of all five platforms classify "
+            "prompts, then edit .pattern / .not_contains of the existing PrivilegeLevel objects (host class widened, length bound narrowed, not_contains entry added / removed; "
+            "controls: object replaced, level added, undo), call update_privilege_levels(), and classify / get_prompt the prompts that tell the old table from the new one; "
+            "the model is given the table of a FRESH driver after the same steps (Gen_PromptEdits_<platform>.v); a connection constructed after another connection's levels were "
+            "edited must still have the platform's own table (isolation observer). After commandeer (core driver takes over a GenericDriver or another "
+            "platform's connection, also followed by register_configuration_session / an in-place edit; and a GenericDriver taking over a core connection) get_prompt must return "
+            "grammar members of 49 and more characters and prompts with blanks. "
             "Known findings are carved out of the grammars by explicit regexes (NX-OS host names containing -tcl or config-s-, Junos user names ending in root in configuration "
             "mode, the word root in a non-root shell prompt) and replayed on every run. quick tier: session names s1 (NX-OS) / s1, abcde-x (EOS); thorough: 9 session names. Both tiers decide the full host grammar.",
     "note": "Trusted: Coq kernel + vm_compute; the prompt grammars and their carve-outs (hand-written specification, spec/prompts.py); gen/regex.py (CPython's own regex parser and "
             "per-byte class membership) and gen/gen_prompts.py; the derivative engine IS the regex semantics of the theorems and is confronted with CPython re on every run "
             "(regex-conformance on all level and combined patterns); Prompt.classify is confronted with the real _determine_current_priv of sync and asyncio drivers on grammar "
             "members, near-misses and carved strings; detection with the real channel.get_prompt over a scripted transport; the cache model with real query/register histories. "
+            "In-place-edit histories: oracle = the uncached classifier AND python re over the CURRENT .pattern / .not_contains attributes of the level objects, model = PromptCache.crun "
+            "(C05_cache_transparent) over generated edited tables; the edits are a generated family (one extra host character, bounds 2..30, substrings of prompts), not all edits. "
+            "Detection after commandeer is ORACLE-ONLY (no Coq model of commandeer: the scenario checks on the real channel that the pattern in use is still the combined pattern "
+            "the theorems are about; get_prompt == prompt). "
             "Universal over session NAMES is not proved: a generated family of names. Unicode prompts beyond latin-1 are outside the model (patterns are translated over bytes 0..255).",
     "technique": "Coq: reflection — derivative automaton emptiness certificates validated by a checker proved sound (closed_sound), lifted by obligations_sound; invariant proof for the cache; "
                  "vm_compute correspondence of the classifier and cache models against the real drivers; regex-conformance against CPython re",
